@@ -88,8 +88,9 @@ def main():
 
     def prefix(kind):
         hh = []
-        if kind == "many":
-            for k in range(260):
+        if kind.startswith("many"):
+            # around the wrap of the table's 8-bit search counter: exactly 256 (quick) or 255 / 256 / 257 / 512
+            for k in range(int(kind[4:])):
                 hh.append(("position", POSITIONS[k % len(POSITIONS)]))
                 hh.append(("go", 1))
         else:
@@ -104,7 +105,7 @@ def main():
         return hh
     for i in range(n_sets):
         S = suffix()
-        H = prefix("many" if i % 8 == 7 else "mixed")
+        H = prefix(("many256" if q else ["many255", "many256", "many257", "many512"][(i // 8) % 4]) if i % 8 == 7 else "mixed")
         hashv = rng.choice([256, 256, 2, 16])
         setup = [] if hashv == 256 else [("setoption", "Hash", hashv)]
         restore = [("setoption", "Hash", hashv), ("setoption", "Move Overhead", 0)]
